@@ -29,7 +29,7 @@ def coding_cases(draw, tier, fast=None, vt=None, message=None, force_table=False
     else:
         vt_length = vt
     options = draw(st.sampled_from(["plain", "plain", "plain", "plain", "verbose", "path", "layout", "all", "dtype",
-                                    "after_failure"]))
+                                    "after_failure", "np_start"]))
     case = {"graph": graph, "bits": bits, "table": table, "fast": is_fast, "vt": vt_length}
     if options in ("verbose", "all"):
         case["verbose"] = True
@@ -39,10 +39,18 @@ def coding_cases(draw, tier, fast=None, vt=None, message=None, force_table=False
         case["layout"] = draw(st.sampled_from(["F", "strided", "offset"]))
     if options == "after_failure":
         case["after_failure"] = True
+    if options in ("np_start", "all", "dtype"):
+        case["np_start"] = True  # the start vertex as a numpy integer (what obtain_vertices / where() hand out)
     if options == "dtype":
         case["layout"] = draw(st.sampled_from(["int32", "int16"]))
         case["msg_dtype"] = draw(st.sampled_from(["int8", "uint8", "int32", "list"]))
     return case
+
+
+def start_of(case):
+    import numpy
+    start = case["graph"]["start"]
+    return numpy.int64(start) if case.get("np_start") else start
 
 
 def budget_for(case):
@@ -72,7 +80,7 @@ def run_encode(case, accessor=None, budget=None, **extra):
         counter.count = 0
     try:
         result = lib_call(dsw.encode, binary_message=gens.bits_of(case["bits"], case.get("msg_dtype")), accessor=acc,
-                          start_index=graph["start"], is_faster=case["fast"], vt_length=case["vt"],
+                          start_index=start_of(case), is_faster=case["fast"], vt_length=case["vt"],
                           shuffles=table, need_path=need_path, verbose=bool(case.get("verbose")), **extra)
     except LookupBudgetExceeded:
         return "BUDGET", counter.count
@@ -96,7 +104,7 @@ def run_decode(case, strand, check=None, bit_length=None, accessor=None, **extra
     try:
         return lib_call(dsw.decode, dna_sequence=strand,
                         bit_length=len(case["bits"]) if bit_length is None else bit_length, accessor=acc,
-                        start_index=graph["start"], is_faster=case["fast"], vt_check=check,
+                        start_index=start_of(case), is_faster=case["fast"], vt_check=check,
                         shuffles=table, verbose=bool(case.get("verbose")), **extra)
     except LookupBudgetExceeded:
         return "BUDGET"
@@ -125,7 +133,7 @@ def walk_classes(case, strand):
         labels.append("table_at_deg2or3")
     if case["vt"]:
         labels.append("vt")
-    for option in ("verbose", "need_path", "layout", "msg_dtype", "after_failure"):
+    for option in ("verbose", "need_path", "layout", "msg_dtype", "after_failure", "np_start"):
         if case.get(option):
             labels.append("opt:" + option)
     if not strand:
